@@ -17,3 +17,7 @@ func buildQueryParams(mw restlicodec.MapWriter) (string, error) {
 }
 
 func newQueryWriter() restlicodec.Writer { return restlicodec.NewRestLiQueryParamsWriter() }
+
+// resources deliberately absent from this generation's bindings (partial_update with return entity does not compile
+// in the root generation: open C12 finding)
+var c11ResourceLeftOut = map[string]bool{"collRR": true, "collRet": true}
